@@ -486,14 +486,24 @@ static bool can_remove_braces(Chunk *bopen)
    }
 
    if (  pc->Is(CT_BRACE_CLOSE)
-      && pc->GetParentType() == CT_IF)
+      && (  pc->GetParentType() == CT_IF
+         || pc->GetParentType() == CT_ELSEIF))
    {
       Chunk *next     = pc->GetNextNcNnl(E_Scope::PREPROC);
       Chunk *tmp_prev = pc->GetPrevNcNnl(E_Scope::PREPROC);
 
+      // the statement may end with several nested braceless bodies
+      while (  tmp_prev->Is(CT_VBRACE_CLOSE)
+            && tmp_prev->GetParentType() != CT_IF
+            && tmp_prev->GetParentType() != CT_ELSEIF)
+      {
+         tmp_prev = tmp_prev->GetPrevNcNnl(E_Scope::PREPROC);
+      }
+
       if (  next->Is(CT_ELSE)
          && tmp_prev->IsBraceClose()
-         && tmp_prev->GetParentType() == CT_IF)
+         && (  tmp_prev->GetParentType() == CT_IF
+            || tmp_prev->GetParentType() == CT_ELSEIF))
       {
          LOG_FMT(LBRDEL, "%s(%d):  - bailed on '%s'[%s] on line %zu due to 'if' and 'else' sequence\n",
                  __func__, __LINE__, get_token_name(pc->GetType()), get_token_name(pc->GetParentType()),
